@@ -18,14 +18,22 @@ let run (obs : Buffer.t) (id : string) (routine : string) (et : string) (debug :
   let flag k = try List.nth flags k with _ -> "-" in
   match routine with
   | "syrk" | "herk" ->
-      let a = List.assoc 'A' mats and c = List.assoc 'C' mats in
+      let a = List.assoc 'A' mats in
+      let c = (match List.assoc_opt 'C' mats with Some c -> c | None -> a) in   (* value forms have no c operand: hstmt_out *)
       let upper = (flag 0 = "upper") in
       let herm = (routine = "herk") && cplx in
       let name = et ^ (if herm then "herk" else "syrk") in
-      (* herk(alpha, a, c) = herk(lower, alpha, a, herk(upper, alpha, a, c)) : herk.hpp:158-161 *)
-      let passes = if form = "both" then [ true; false ] else [ upper ] in
-      let al' = if herm then (fst al, 0) else al in
-      let be' = if form = "both" then (0, 0) else if herm then (fst be, 0) else be in
+      (* the spelling decides the passes (fill, alpha, beta): Model/BlasC13Expr.v hstmt_passes
+         (herk(alpha, a, c) = herk(lower, alpha, a, herk(upper, alpha, a, c)) : herk.hpp:158-161) *)
+      let al0 = if herm then (fst al, 0) else al in
+      let be0 = if herm then (fst be, 0) else be in
+      let st = (match form with
+                | "nobeta" -> HkNoBeta (upper, al0) | "both" -> HkBoth al0 | "both1" -> HkBoth1
+                | "value" -> HkValue al0 | "value1" -> HkValue1 | _ -> HkFull (upper, al0, be0)) in
+      let passes3 = hstmt_passes (0, 0) (1, 0) st in
+      let passes = List.map (fun ((up, _), _) -> up) passes3 in
+      let (al', be') = (match passes3 with ((_, a1), b1) :: _ -> (a1, b1) | [] -> (al0, be0)) in
+      let c = hstmt_out st a c (z (if i a.rows = 0 then 8000000 else 4000000)) in
       let n_call = ref 0 in
       let final = ref "outcome=ok why=-" in
       let site = ref 0 and crit = ref 1 in
@@ -57,8 +65,16 @@ let run (obs : Buffer.t) (id : string) (routine : string) (et : string) (debug :
       pr "O %s %s\n" id !final
   | "trsm" ->
       let a = List.assoc 'A' mats and b = List.assoc 'B' mats in
-      let left = (flag 0 = "left") and lower = (flag 1 = "lower") and unit = (flag 2 = "unit") in
-      let o = trsm_model debug left lower unit a b in
+      (* the spelling decides side / diagonal / scalar: Model/BlasC13Expr.v tstmt_args *)
+      let tri = if flag 1 = "lower" then TriL else TriU in
+      let st = (match form with
+                | "nonunit5" -> TsNonUnit (flag 0 = "left", flag 1 = "lower", al)
+                | "tri" -> TsTri (flag 0 = "left", al, tri)
+                | "opdiv" -> TsDivEq tri | "opor" -> TsOrEq tri
+                | _ -> TsFull (flag 0 = "left", flag 1 = "lower", flag 2 = "unit", al)) in
+      let g = tstmt_args (1, 0) st in
+      let left = g.ta_left and lower = g.ta_lower and unit = g.ta_unit and al = g.ta_alpha in
+      let o = tstmt_model (1, 0) debug st a b in
       let site = (match trsm_dispatch left lower unit a b with L3Call k -> i k.t_site | _ -> 0) in
       let m = if left then i b.rows else i b.cols in
       (* certified by C13_trsm_criterion_sound: the call passes trsm_implements_b; or there is nothing to solve *)
